@@ -5,6 +5,8 @@ import (
 	"go/types"
 	"os"
 	"strings"
+
+	"golang.org/x/tools/go/ssa"
 )
 
 // debugDump prints the event graph of one scenario (developer aid):
@@ -233,5 +235,35 @@ func init() {
 			fmt.Printf("\t%q: %q,\n", p.rawFuncKey(fn), fingerprint(p, fn))
 		}
 		fmt.Println("}")
+	}
+}
+
+func init() {
+	debugHooks["nonnil"] = func(p *Prog, what string) {
+		w := p.Wiring()
+		debugNonNil = true
+		w.memo = map[*ssa.Function]int{}
+		for _, fn := range p.ModuleFuncs() {
+			if fn.Package() == nil || fn.Package().Pkg.Name() != "parser" || fn.Signature.Results().Len() != 2 {
+				continue
+			}
+			fmt.Println(fn.Name(), w.nonNilOnSuccess(fn))
+		}
+		for _, k := range w.Keys() {
+			fmt.Println(k, "nullable:", w.Nullable(k))
+		}
+	}
+}
+
+func init() {
+	debugHooks["coerce"] = func(p *Prog, what string) {
+		parts := strings.SplitN(strings.TrimPrefix(what, "coerce:"), "/", 2)
+		fn := p.Func("interpreter." + parts[0])
+		m := NewInterpModel(p, what)
+		m.EmitTests = true
+		m.KeepAsEvent = func(c *ssa.Function) bool { return fnName(c) == "ConvertBanglaDigitsToASCII" }
+		m.Unroll = 1
+		m.Explore(fn, []AV{Sym("value")}, func(st *State) { st.Facts["type:value"] = StrV(parts[1]) })
+		printGraph(m.G)
 	}
 }
